@@ -245,8 +245,10 @@ def s5(ctx, rep):
     src_var = U(parked.elts[0])
     # the source is selected among trials that are not stopped
     q = c.methods["_quantiles"]
-    sel_ok = any(isinstance(n, ast.If) and any(a[0] == "truth" and a[1].endswith("." + flag) and a[2] is False for a in atoms_of(n.test, True))
-                 for n in walk_shallow(q.node))
+    tests_ = [n.test for n in walk_shallow(q.node) if isinstance(n, ast.If)] + \
+             [c_ for n in walk_shallow(q.node, include_lambda=True) if isinstance(n, (ast.ListComp, ast.SetComp, ast.GeneratorExp, ast.DictComp))
+              for g_ in n.generators for c_ in g_.ifs]
+    sel_ok = any(any(a[0] == "truth" and a[1].endswith("." + flag) and a[2] is False for a in atoms_of(t_, True)) for t_ in tests_)
     # every writer of the flag is a stop: the flag must be what _quantiles filters on
     writers = [x for m_ in c.methods.values() for x in walk_shallow(m_.node) if isinstance(x, ast.Assign)
                and any(isinstance(t, ast.Attribute) and t.attr == flag for t in x.targets)]
